@@ -6,7 +6,7 @@ from ..main import run_rule
 
 
 def _rules():
-    from . import (shared, predrules, watchrules, minimiser, C02, C05, C07, C09, C17)
+    from . import (shared, predrules, watchrules, minimiser, C02, C05, C07, C08, C09, C17)
     return [
         ("every solve starts from exactly the assumptions it was given", shared.assumptions_overwritten),
         ("no reason reference is fabricated", shared.no_fabricated_reason),
@@ -35,6 +35,14 @@ def _rules():
         ("arithmetic constraint builders mean what they say", C09.r10),
         ("the …_at_trail_position queries agree", C17.l16),
         ("INCREMENTAL-RESET of un-trailed propagator state", C17.l20),
+        ("explanations: direct bound facts name the right variable and direction", C17.l8),
+        ("explanations: every bound the propagated value was computed from is stated", C17.l9),
+        ("explanations: computed bound facts are established by, and as strong as, a dominating test", C17.l10),
+        ("explanations: tested bounds of other variables are stated", C17.l15),
+        ("explanations: the cached profile explanation is reset per profile", C17.l12),
+        ("explanations: the lazy element reason ranges over every position", C17.l19),
+        ("explanations: lazy explanations do not read the current domains", C17.l5),
+        ("explanations: WITNESS-POINT of pointwise hole explanations", C08.h11),
     ]
 
 
